@@ -279,6 +279,14 @@ def r5_6(ctx, rc):
                 rc.ok({'close': key}, key=key)
 
 
+def r5_7(ctx, rc):
+    """Functions receive deep copies of the recorded arguments: a callee that
+    edits an argument in place must not change the recorded identity (the
+    record would never match again - re-execution on every build)."""
+    from .c11 import r11_1
+    r11_1(ctx, rc)
+
+
 RULES = [
     ('R5.1', 'listings are sorted before they are recorded', r5_1),
     ('R5.2', 'failures are not served at top level; nested ones reusable',
@@ -287,4 +295,5 @@ RULES = [
     ('R5.4', 'the overlay is threaded through every replayed query', r5_4),
     ('R5.5', 'the replayed query is the recorded query', r5_5),
     ('R5.6', 'a reused subtree is re-registered completely', r5_6),
+    ('R5.7', 'recorded arguments are not aliased with the callee', r5_7),
 ]
